@@ -223,7 +223,13 @@ def T_tamper(di: int, mi: int, via_text: bool) -> int:
         if mi >= len(muts):
             return SKIP
         label, fn = muts[mi]
-        fn(sealed)
+        before = emit(sealer._remove_seal_section(sealed))
+        try:
+            fn(sealed)
+        except (IndexError, AttributeError, KeyError):
+            return SKIP  # this catalogue entry does not apply to this document shape
+        if label.startswith(("container", "top", "move", "swap")) and emit(sealer._remove_seal_section(sealed)) == before:
+            return SKIP  # a structural catalogue entry that is the identity on this document (e.g. swapping equal nodes)
         if via_text:
             try:
                 sealed = parse(emit(sealed))
